@@ -72,7 +72,6 @@ def lift_bool(x):
 
 class SymBool:
     __slots__ = ("e",)
-    __array_priority__ = 1000
 
     def __init__(self, e):
         self.e = e
@@ -130,7 +129,6 @@ def sym_and(*xs):
 class SymInt:
     """Symbolic Python int."""
     __slots__ = ("e", "hashmode", "lo", "hi")
-    __array_priority__ = 1000
     _registry = []
     _index = {}
 
@@ -397,7 +395,6 @@ _RF = {_add: _add, _sub: _sub, _imul: _rmul}
 class SymReal:
     """Symbolic real standing for a Python/numpy float."""
     __slots__ = ("e",)
-    __array_priority__ = 1000
     exact_mul = False
 
     def __init__(self, e):
